@@ -279,6 +279,16 @@ var acceptedErrorIdioms = map[string]string{
 	"spynode.(*Node).handleMessage#error-of-Handle@1":    "a message handler's failure is logged; it does not end the connection's message loop",
 	"storage.(*BlockRepository).getTime#error-of-read@1": "Time() is best effort: an unreadable file answers time 0",
 	"storage.(*PeerRepository).Load#error-of-readPeer@1": "records are read until the data is exhausted: the first failed read ends the list",
+	// handleMessage logs a notification it could not queue and goes on with the next message; what must
+	// not happen then (advancing the message id) is C17.R2's business. On the confirmed tree the log
+	// branch joins the common `return nil`; written with its own return it is the same behaviour.
+	"client.(*RemoteClient).handleMessage#error-of-addHandlerMessage@1": "a notification that cannot be queued is logged, the connection goes on",
+	"client.(*RemoteClient).handleMessage#error-of-addHandlerMessage@2": "a notification that cannot be queued is logged, the connection goes on",
+	"client.(*RemoteClient).handleMessage#error-of-addHandlerMessage@3": "a notification that cannot be queued is logged, the connection goes on",
+	"client.(*RemoteClient).handleMessage#error-of-addHandlerMessage@4": "a notification that cannot be queued is logged, the connection goes on",
+	"client.(*RemoteClient).handleMessage#error-of-addHandlerMessage@5": "a notification that cannot be queued is logged, the connection goes on",
+	"client.(*RemoteClient).handleMessage#error-of-addHandlerMessage@6": "a notification that cannot be queued is logged, the connection goes on",
+	"client.(*RemoteClient).handleMessage#error-of-addHandlerMessage@7": "a notification that cannot be queued is logged, the connection goes on",
 }
 
 // ---------------------------------------------------------------------------------------------
